@@ -2,4 +2,10 @@ EXTRA = {
  "C13": ("Seeded deterministic simulation with a scripted raw peer: a valid exchange X and X' = X with unknown / GREASE frames, settings, capsules and uni streams inserted at every legal point (both roles); metamorphic oracle outcome(X') == outcome(X). Sampling, not proof.",
          "raw peer + reference codec are harness code; payloads above the documented 4096 B frame limit excluded (C12's subject); current-thread runtime",
          SIM + " (peer-injected unknown protocol elements as faults, metamorphic oracle)"),
+ "C12": ("Seeded deterministic simulation with a scripted raw peer: every usable sequence of depth 1-2 of connection-level events (critical streams, control-stream frames, request / response openings, invalid session ids) for both roles, then sampled depth 3-6; the observed CONNECTION_CLOSE code (or continued liveness) is compared with a reference rule table transcribed from RFC 9114 / 9204 / the WebTransport draft. Sampling beyond depth 2.",
+         "rule table is hand-transcribed and holds sets where the specifications allow several reactions; raw peer + reference codec are harness code; the sans-IO typestates are additionally compared across decoding paths under C15",
+         SIM + " (peer protocol violations as faults, reference-model oracle over event histories)"),
+ "C18": ("Seeded deterministic simulation with a scripted raw peer: exhaustive grid of pseudo-header combinations against the real server, every :status integer (0..65535 in the thorough tier) plus malformed strings against the real client, and reserved / near-reserved additional header names through connect(); admission oracle from the property text.",
+         "numeric StatusCode constructors are pure and not covered; raw peer + reference codec are harness code",
+         SIM + " (peer-supplied malformed requests/responses as faults, admission oracle)"),
 }
